@@ -242,3 +242,25 @@ PROPS["C03"] = dict(
     engines=[pbt("c03_iomodes", libs=["rapidcheck", "snappy", "lz4"], quick=dict(cases=450, size=60, procs=8), thorough=dict(cases=8000, size=100, procs=16))],
     min_evaluations=dict(quick=2500, thorough=100000),
 )
+
+PROPS["C16"] = dict(
+    title="Statistics are true bounds and pruning never discards matching data",
+    level="exploration",
+    design_ref="DESIGN.md section 8, C16",
+    level_text=("Model-based and brute-force checks: (builder) generated op sequences over add_values/add_nulls/add_byte_arrays/reset/build for all eight physical "
+                "types (NaN first, all-NaN, -0/+0, extremes, byte arrays of unequal length incl. > 256 bytes) against the multiset of values since the last reset; "
+                "(pruning) reference-written files with 1..12 row groups whose chunk statistics are true bounds - exact, loosened, in the new fields, in the "
+                "deprecated fields, or absent, mixed per group - queried with all six operators and probes at, between and beyond the bounds: row_group_matches "
+                "must say 'might match' for every group holding a matching row (brute force over the stored values) and for groups without statistics, and "
+                "filter_row_groups must return exactly the ascending might-match list capped at max_indices in {1,2,n-1,n,n+1}; (helpers) statistics_compare, "
+                "range_overlaps and column-index page_might_match with true per-page bounds, no false negative against brute force. The writer's page "
+                "statistics are checked by the C01/C05 engine. Exploration only."),
+    level_note="float pruning files contain no NaN (order undefined by the format); deprecated-field byte arrays use bytes < 0x80 where signed and unsigned orders agree; FIXED_LEN values stay <= 256 bytes (the builder's own buffer size)",
+    technique="model-based property testing (rapidcheck) with brute-force ground truth over the actual values; reference writer for files with controlled statistics",
+    rule=("builder: non-trivial = sequence containing a NaN or byte arrays of unequal length. pruning: non-trivial = >= 2 row groups and a probe equal to a group's "
+          "min or max. helpers: non-trivial = >= 2 distinct values. Distinct = FNV-1a-64 of the serialised case."),
+    assumptions=["value order: signed for INT32/INT64, IEEE for FLOAT/DOUBLE, unsigned lexicographic for BYTE_ARRAY/FIXED_LEN_BYTE_ARRAY",
+                 "builder bounds are accepted under IEEE comparison ignoring NaN or under the total order 'NaN greatest, -0 = +0' that the builder documents"],
+    engines=[pbt("c16_stats", libs=["rapidcheck", "snappy", "lz4"], quick=dict(cases=1500, size=60, procs=6), thorough=dict(cases=15000, size=100, procs=16))],
+    min_evaluations=dict(quick=6000, thorough=150000),
+)
